@@ -63,6 +63,7 @@ structure Cfg where
   pWi : Bool
   pSize : Bool
   unchangedChecksType : Bool   -- RegisterPattern's "not changed" early return also compares the swamp type
+  saveAtomic : Bool            -- settings.json is replaced atomically (temp file + rename), not rewritten in place
   deriving DecidableEq, Repr
 
 def rank (cfg : Cfg) (p : Name) : Int :=
@@ -163,6 +164,12 @@ def ofPM (cfg : Cfg) (pm : PatternModel) : Entry :=
 
 /-- registry seen by a second `settings.New` on the same root -/
 def reload (cfg : Cfg) (reg : List Entry) : List Entry := reg.map (fun e => ofPM cfg (toPM e))
+
+/-- what a second `settings.New` finds after a save of `settings.json` that failed part-way (crash, full disk)
+    while the file held registry `disk`: an in-place rewrite has truncated the file — it no longer parses and
+    `New` silently starts with NO patterns; an atomic replace leaves the previous file intact -/
+def afterTornSave (cfg : Cfg) (disk : List Entry) : List Entry :=
+  if cfg.saveAtomic then reload cfg disk else []
 
 /-- registries reachable through the gateway: separator-free parts, one entry per key -/
 structure WF (reg : List Entry) : Prop where
